@@ -76,6 +76,7 @@ def main(run):
     run.prove()
     model_ok = run.build_model()
     run.run_findings()
+    run.pylite(["pad", "device_side"])
     if model_ok:
         for what, c, m in run.differential(cases(run)):
             run.violation(what, {"call": c["cmd"][:4000], "implementation": c["impl"][:4000],
